@@ -20,8 +20,8 @@ REPO = os.environ.get('SM9_REPO', '/repo')
 GUARD = 'john_yu_sm9_core_verif'
 NCPU = int(os.environ.get('VERIF_JOBS', '0')) or min(16, os.cpu_count() or 4)
 
-LINE_TIMEOUT_S = 90        # no new answer line for this long => suspected hang
-SOLO_TIMEOUT_S = 240       # the open call re-run alone
+LINE_TIMEOUT_S = 40        # no new answer line for this long => suspected hang
+SOLO_TIMEOUT_S = 90        # the open call re-run alone
 
 
 class Inconclusive(Exception):
@@ -84,6 +84,15 @@ def repo_state():
 
 
 # --------------------------------------------------------------------------- executor process
+def _die_with_parent():
+    # PR_SET_PDEATHSIG = 1, SIGKILL = 9: a spinning executor must not outlive a killed check
+    try:
+        import ctypes
+        ctypes.CDLL('libc.so.6').prctl(1, 9)
+    except Exception:
+        pass
+
+
 class Executor:
     def __init__(self, path, env=None):
         self.path = path
@@ -96,7 +105,8 @@ class Executor:
         e = dict(os.environ)
         if self.env:
             e.update(self.env)
-        self.p = subprocess.Popen([self.path], stdin=subprocess.PIPE, stdout=subprocess.PIPE, stderr=subprocess.PIPE, env=e, bufsize=0)
+        self.p = subprocess.Popen([self.path], stdin=subprocess.PIPE, stdout=subprocess.PIPE, stderr=subprocess.PIPE, env=e, bufsize=0,
+                                  preexec_fn=_die_with_parent)
         self.buf = b''
 
     def close(self):
@@ -221,6 +231,7 @@ class Ctx:
         self.spec = None
         self.rng = None
         self.trace = []
+        self.hangs = 0
 
     # -- case lifecycle
     def begin(self, idx, spec):
@@ -242,6 +253,8 @@ class Ctx:
             self._ex[exe] = Executor(self.exe_paths[exe], env)
         ans = self._ex[exe].run(lines)
         self.trace.append({'exe': exe, 'program': list(lines), 'answers': ans})
+        if 'hang' in ans or 'hang?' in ans:
+            self.hangs += 1
         return ans
 
     # -- recording observations
@@ -278,7 +291,7 @@ class Ctx:
     def result(self):
         return {
             'evals': self.evals, 'classes': dict(self.classes), 'distinct': array.array('Q', self.distinct).tobytes(),
-            'violations': self.violations, 'samples': self.samples, 'extra': dict(self.extra), 'notes': self.notes,
+            'violations': self.violations, 'samples': self.samples, 'extra': dict(self.extra), 'notes': self.notes, 'hangs': self.hangs,
         }
 
 
@@ -311,6 +324,10 @@ def _worker_batch(batch):
                 internal.append('case %s: %s' % (idx, e))
             except Exception:
                 internal.append('case %s spec %r: %s' % (idx, spec, traceback.format_exc()))
+            if ctx.hangs:
+                # a call that does not return costs minutes each time: one confirmed hang per worker batch is enough
+                ctx.extra['cases-skipped-after-hang'] += len(batch) - 1 - [i for i, _ in batch].index(idx)
+                break
     finally:
         ctx.close()
     res = ctx.result()
@@ -367,9 +384,15 @@ def run_cases(pid, tier, seed, exes, cases, batch=None, jobs=None, progress=Fals
     ctxm = multiprocessing.get_context('fork')
     with ctxm.Pool(jobs, initializer=_worker_init, initargs=(pid, tier, seed, exes)) as pool:
         done = 0
+        hangs = 0
         for res in pool.imap_unordered(_worker_batch, batches):
             agg.add(res)
             done += 1
+            hangs += res.get('hangs', 0)
+            if hangs >= 3:
+                agg.extra['run-cut-short-after-hangs'] += 1
+                pool.terminate()
+                break
             if progress and done % max(1, len(batches) // 10) == 0:
                 print('  … %d/%d batches, %d events, %d violations' % (done, len(batches), agg.evals, len(agg.violations)), flush=True)
     return agg
